@@ -186,4 +186,24 @@ theorem conc_recovery_idempotent
   refine ⟨?_, by rw [hw]; exact h.2⟩
   rw [h.1]; simp only [absOfL, h0]
 
+/-- … and when the WAL of `d` is absent or stale (recovery only truncates it and cleans the rollback log) no order
+clause is needed at all: whatever the interleaving, every image of every prefix abstracts to the state of `d`. -/
+theorem conc_recovery_idempotent_stale
+    (d : Disk Content MetaRec WalRec LogRec) (hstale : ∀ w, d.wal = some w → P.walSeqn w ≠ P.seqn d.mt)
+    (ct : List (CEv Content MetaRec WalRec LogRec)) (hall : ∀ e ∈ begun ct, StaleAllowed L d e) :
+    ∀ cp, cp <+: ct → ∀ img, IsCImage (crun (cinit d) cp) img →
+      absOfL P L img = absOfL P L d ∧ (img.wal = d.wal ∨ img.wal = none) := by
+  intro cp hcp img himg
+  rw [isCImage_lin] at himg
+  obtain ⟨r, hr⟩ := hcp
+  have hcpall : ∀ e ∈ begun cp, StaleAllowed L d e := by
+    intro e he
+    apply hall
+    rw [← hr]
+    simp only [begun, List.filterMap_append, List.mem_append]
+    exact Or.inl he
+  have hg := invG_images (StaleGood L d) (StaleAllowed L d) (staleGood_applyEff L d) (lin d cp) ⟨d, []⟩
+    ⟨⟨rfl, rfl, Or.inl rfl, rfl⟩, fun e he => by cases he⟩ (lin_all _ d cp hcpall) img himg
+  exact ⟨staleGood_abs P L d hstale img hg, hg.2.2.1⟩
+
 end NomtDisk
